@@ -173,7 +173,9 @@ def vector_src(ns, nl, npar, ni2c, other, same_name=False, lcd_order="parallel-f
         lines = lines[:3 + (2 if other else 0)] + lcds + lines[3 + (2 if other else 0):]
     else:
         lines += lcds
-    lines.append("while True:")
+    lines.append({"header-comment": "while True:  # main loop", "header-paren": "while (True):", "header-blank": "while True :   "}.get(lcd_order, "while True:"))
+    if lcd_order == "comment-before-loop-declarations":
+        lines += ["# a comment line at column 0 inside the loop body", "    # and an indented one"]
     for k in range(nl):
         lines.append(f"    sb{k} = Servo({6 + k})")
     if other:
@@ -223,6 +225,9 @@ def extra_obligations(mods, tier, seed):
     samples = []
     space = [(ns, nl, npar, ni2c, other, "parallel-first") for ns, nl, npar, ni2c, other in itertools.product(range(3), range(3), range(3), range(3), (False, True))]
     # declaration order of the two LCD kinds (and of displays relative to servos) must not matter
+    # the spelling of the main-loop header and comment lines before the declarations at the top of the loop body must not matter either
+    space += [(ns, nl, npar, ni2c, other, order) for order in ("header-comment", "header-paren", "header-blank", "comment-before-loop-declarations")
+              for ns, nl, npar, ni2c, other in itertools.product((0, 1), (1, 2), (0, 1), (0, 1), (False, True))]
     space += [(ns, nl, npar, ni2c, other, order) for order in ("i2c-first", "interleaved", "lcd-before-servo", "with-rw-pin")
               for ns, nl, npar, ni2c, other in itertools.product((0, 1), (0, 1), (1, 2), (0, 1, 2) if order == "with-rw-pin" else (1, 2), (False, True))]
     for ns, nl, npar, ni2c, other, order in space:
